@@ -4,6 +4,9 @@
 //!   lee ; <link>                 "comps=<k> Z10=<total rank>/<#torsion> Q01=<total rank>/<#torsion>"
 //!   ss <c> ; <knot> ; <moved>    "K=<u>,<r> M=<u>,<r> MIR=<u>,<r> X=[<sign>:<ss after change>,...]"   (u/r = unreduced/reduced)
 //!   ssh <ring> ; <knot> ; <moved>   same with c = H over F2[H], F3[H], Q[H]
+//!   sso <c> <red> <bound> ; <knot>   "<ss>" = ss_invariant(l, c, red) over i64 and BigInt (must agree: "<a>|<b>" otherwise),
+//!                                    compared exactly with the definition-level oracle `ss_spec` of the Coq model
+//!                                    (the model prints SKIP when a chain group around degree 0 exceeds <bound> generators)
 use yui::poly::Poly;
 use yui::{EucRing, EucRingOps, Ratio, FF};
 use yui_homology::{GridTrait, SummandTrait};
@@ -86,6 +89,91 @@ where R: EucRing, for<'x> &'x R: EucRingOps<R> {
     out.join(" ")
 }
 
+/// `sso`: the value of the invariant itself, over both integer types
+fn sso_case(l: &Link, c: i64, red: bool) -> String {
+    let a = guarded(|| ss_invariant::<i64>(l, &c, red)).map(|x| x.to_string()).unwrap_or("P".into());
+    let cb = num_bigint::BigInt::from(c);
+    let b = guarded(|| ss_invariant::<num_bigint::BigInt>(l, &cb, red)).map(|x| x.to_string()).unwrap_or("P".into());
+    if a == b { a } else { format!("{}|{}", a, b) }
+}
+
+/// diagram text of a PD code (all crossings X, or all mirrored), built without the library
+fn pd_str(pd: &PD, mirror: bool) -> String {
+    pd.iter().map(|x| format!("{} {} {} {} {}", if mirror { "M" } else { "X" }, x[0], x[1], x[2], x[3])).collect::<Vec<_>>().join(" , ")
+}
+
+/// the closure of the braid is a knot: its permutation is a single cycle (computed here, not by the library)
+fn braid_is_knot(s: usize, w: &[i32]) -> bool {
+    let mut p: Vec<usize> = (0..s).collect();
+    for &x in w { let i = x.unsigned_abs() as usize; p.swap(i - 1, i); }
+    let (mut k, mut n) = (p[0], 1);
+    while k != 0 { k = p[k]; n += 1; if n > s { return false; } }
+    n == s
+}
+
+/// the `sso` cases: table knots up to 6 crossings and unknot diagrams, mirrors, kinked / relabelled / reordered
+/// copies, closures of braid words with at most 6 letters; c in {2, 3}, reduced and unreduced
+fn sso_cases(seed: u64, thorough: bool) -> Vec<String> {
+    let mut r = Rng::new(seed ^ 0x5506_c06d_1234_9876);
+    // size bound of the oracle (generators of a chain group around degree 0).  Its cost is that of the exact Smith normal
+    // forms: with c = 3 the entries can explode just above 100 generators (minutes), with c = 2 150 generators take ~15 s
+    let bound_for = |c: i64| if thorough && c == 2 { 150 } else { 100 };
+    let table: Vec<PD> = vec![
+        vec![[0, 0, 1, 1]], vec![[0, 1, 1, 0]], vec![[1, 2, 2, 1]], vec![[1, 3, 2, 2], [3, 1, 4, 4]],
+        vec![[1, 4, 2, 5], [3, 6, 4, 1], [5, 2, 6, 3]],
+        vec![[4, 2, 5, 1], [8, 6, 1, 5], [6, 3, 7, 4], [2, 7, 3, 8]],
+        vec![[1, 6, 2, 7], [3, 8, 4, 9], [5, 10, 6, 1], [7, 2, 8, 3], [9, 4, 10, 5]],
+        vec![[1, 4, 2, 5], [3, 8, 4, 9], [5, 10, 6, 1], [9, 6, 10, 7], [7, 2, 8, 3]],
+        vec![[1, 4, 2, 5], [7, 10, 8, 11], [3, 9, 4, 8], [9, 3, 10, 2], [5, 12, 6, 1], [11, 6, 12, 7]],
+        vec![[1, 4, 2, 5], [5, 10, 6, 11], [3, 9, 4, 8], [9, 3, 10, 2], [7, 12, 8, 1], [11, 6, 12, 7]],
+        vec![[4, 2, 5, 1], [8, 4, 9, 3], [12, 9, 1, 10], [10, 5, 11, 6], [6, 11, 7, 12], [2, 8, 3, 7]],
+    ];
+    let mut pds: Vec<PD> = vec![];
+    for pd in &table {
+        pds.push(pd.clone());
+        // a relabelled and reordered copy; for diagrams up to 5 crossings also a kinked one
+        let pd2 = relabel(pd, &mut r);
+        pds.push(shuffle_crossings(&pd2, &mut r));
+        if pd.len() <= 5 && (thorough || r.bool()) {
+            let c = r.below(pd.len() as u64) as usize;
+            let k = add_kink(pd, c, r.below(4));
+            pds.push(if r.bool() { shuffle_crossings(&k, &mut r) } else { k });
+        }
+    }
+    // braid closures with at most 6 letters on 2-3 strands (4 strands in the thorough tier)
+    let nb = if thorough { 60 } else { 10 };
+    let mut k = 0;
+    while k < nb {
+        let s = 2 + r.below(if thorough { 3 } else { 2 }) as usize;
+        let len = (s - 1) + r.below((7 - (s - 1)) as u64) as usize;
+        // half of the words have letters of one sign (positive / negative braids: non-trivial values), the others random signs
+        let mode = r.below(4);
+        let w: Vec<i32> = (0..len).map(|_| { let i = 1 + r.below(s as u64 - 1) as i32; match mode { 0 => i, 1 => -i, _ => if r.bool() { i } else { -i } } }).collect();
+        if !braid_is_knot(s, &w) { continue; }
+        if let Some(pd) = braid_closure(s, &w) {
+            let pd = if r.bool() { shuffle_crossings(&relabel(&pd, &mut r), &mut r) } else { pd };
+            pds.push(pd);
+            k += 1;
+        }
+    }
+    let mut cases = vec![];
+    let mut seen = std::collections::BTreeSet::new();
+    for pd in &pds {
+        for mir in [false, true] {
+            let s = pd_str(pd, mir);
+            if !seen.insert(s.clone()) { continue; }
+            for c in [2, 3] {
+                for red in [0, 1] {
+                    // quick tier: every diagram with c = 2 unreduced and c = 3 reduced, the other two combinations at random
+                    if !thorough && pd.len() >= 5 && ((c == 2) != (red == 0)) && !r.chance(1, 3) { continue; }
+                    cases.push(format!("sso {} {} {} ; {}", c, red, bound_for(c), s));
+                }
+            }
+        }
+    }
+    cases
+}
+
 fn parse_json_code(s: &str) -> Option<PD> {
     let nums: Vec<usize> = s.split(|c: char| !c.is_ascii_digit()).filter(|x| !x.is_empty()).map(|x| x.parse().ok()).collect::<Option<Vec<_>>>()?;
     if nums.is_empty() || nums.len() % 4 != 0 { return None; }
@@ -106,6 +194,10 @@ fn run_case(line: &str) -> String {
         "ss" => {
             let c: i64 = head[1].parse().unwrap();
             ss_case::<i64>(&parse_link(parts[1]), &parse_link(parts[2]), &c, true)
+        }
+        "sso" => {
+            let c: i64 = head[1].parse().unwrap();
+            sso_case(&parse_link(parts[1]), c, head[2] == "1")
         }
         "ssh" => {
             let (l, m) = (parse_link(parts[1]), parse_link(parts[2]));
@@ -211,6 +303,8 @@ fn main() {
             }
             cases.push(format!("lee ; {}", link_str(&Link::empty())));
             cases.push(format!("lee ; {}", link_str(&Link::unknot())));
+            // the value of the invariant against the definition-level oracle (own random stream: the cases above are unchanged)
+            cases.extend(sso_cases(seed, thorough));
             use rayon::prelude::*;
             let results: Vec<String> = cases.par_iter().map(|c| guarded(|| run_case(c)).unwrap_or("TOP-PANIC".into())).collect();
             for (c, res) in cases.iter().zip(results.iter()) { o.case(c, res); }
